@@ -210,7 +210,14 @@ impl BuildSystem {
                 analyzer.get_discovered_events(),
                 config,
             ) {
-                Ok(false) => {
+                Ok(false)
+                    if !config.should_visualize_deps()
+                        || GenerationCache::visualization_is_current(
+                            &config.output_path,
+                            &analyzer.visualize_dependencies(&commands),
+                            &analyzer.generate_dot_graph(&commands),
+                        ) =>
+                {
                     self.logger
                         .verbose("Cache hit - no changes detected, skipping generation");
                     // Return list of existing files without regenerating
@@ -222,7 +229,7 @@ impl BuildSystem {
                     self.logger
                         .debug("Could not get existing file list, regenerating");
                 }
-                Ok(true) => {
+                Ok(_) => {
                     self.logger
                         .verbose("Cache miss - changes detected, regenerating");
                 }
